@@ -144,7 +144,7 @@ pub fn def() -> PropDef {
         title: "Highlight markup is balanced, word-aligned and present exactly when expected",
         rule: "random worlds; 40% are 'joined shape' worlds (titles a-b / a b / ab / x ab against queries ab / a b / a-b, gap widths 1-3, one-letter halves, 0-1 typos, truncated), the rest general adversarial worlds with related, unrelated and empty/separator-only queries. Hits are searched with sentinel markers and walked in lock-step against the public tokenisation of the stored title. Non-trivial = a hit with >= 2 spans, or a span ending strictly inside its word; distinct = distinct world",
         assumptions: &["NUL padding makes a close-marker position ambiguous; the walk uses the earliest possible end, which cannot create a false alarm", "hits whose text does not match the stored title are left to C02"],
-        spaces: vec![Space { name: "world", decode, plan: |t| Plan::Random(t.n(80_000, 2_500_000)) }],
+        spaces: vec![Space { name: "world", decode, plan: |t| Plan::Random(t.n(300_000, 4_000_000)) }],
         differential: false,
     }
 }
